@@ -95,6 +95,7 @@ macro_rules! amount_shape {
         #[kani::proof]
         #[kani::unwind(34)]
         #[kani::stub(biguint_shl2, rec_shift2)]
+        #[kani::stub(crate::biguint::verif_common::symbolic, crate::biguint::verif_common::yes)]
         #[kani::stub(biguint_shr2, rec_shift2)]
         fn $name() {
             let a0: [u64; 1] = vc::any_canon::<1>();
@@ -105,6 +106,15 @@ macro_rules! amount_shape {
             kani::assume((k as u128) / 64 <= usize::MAX as u128);
             let left: bool = kani::any();
             unsafe { REC_CALLS = 0; }
+            if !vc::symbolic() {
+                // native replay (only feasible for small amounts): compare with the window oracle
+                if (k as u128) < 128 {
+                    let r = if left { &a << k } else { &a >> k };
+                    let e = if left { vc::ref_shl::<4>(&a0, (k as usize) / 64, (k as u32) % 64).0 } else { vc::ref_shr::<4>(&a0, (k as usize) / 64, (k as u32) % 64).0 };
+                    kani::assert(vc::eq_window(vc::digits(&r), &e), "VERIF word part of the shift amount");
+                }
+                return;
+            }
             let _ = if left { &a << k } else { &a >> k };
             kani::assert(unsafe { REC_CALLS } == 1, "VERIF shift kernel not called exactly once");
             kani::assert(unsafe { REC_DIGITS } as u128 == (k as u128) / 64, "VERIF word part of the shift amount");
@@ -117,6 +127,7 @@ macro_rules! amount_neg_mp {
         #[kani::proof]
         #[kani::unwind(34)]
         #[kani::stub(biguint_shl2, rec_shift2)]
+        #[kani::stub(crate::biguint::verif_common::symbolic, crate::biguint::verif_common::yes)]
         #[kani::stub(biguint_shr2, rec_shift2)]
         fn $name() {
             let a0: [u64; 1] = kani::any();
@@ -147,12 +158,18 @@ macro_rules! amount_zero_shape {
 #[kani::proof]
 #[kani::unwind(34)]
 #[kani::stub(biguint_shr2, rec_shift2)]
+#[kani::stub(crate::biguint::verif_common::symbolic, crate::biguint::verif_common::yes)]
 fn c07_q_shr_huge_u128() {
     let a0: [u64; 2] = vc::any_canon::<2>();
     let a = vc::mk_from(&a0);
     let k: u128 = kani::any();
     kani::assume(k / 64 > usize::MAX as u128);
     unsafe { REC_CALLS = 0; }
+    if !vc::symbolic() {
+        let r = &a >> k;
+        kani::assert(vc::digits(&r).is_empty(), "VERIF x >> huge does not saturate the word count");
+        return;
+    }
     let _ = &a >> k;
     // saturates: the kernel is asked to drop usize::MAX words (=> zero, see c07_*_shr2_1_w3)
     kani::assert(unsafe { REC_CALLS } == 1 && unsafe { REC_DIGITS } == usize::MAX, "VERIF x >> huge does not saturate the word count");
